@@ -28,6 +28,8 @@ func Main(args []string) int {
 	fs.Parse(args[1:])
 
 	switch args[0] {
+	case "bigconsts", "bigexec":
+		return bigMain(args[0], *pset, *progs, *trace, *seed)
 	case "consts":
 		ps := GetPSet(*pset)
 		b, _ := json.Marshal(ps.Consts())
